@@ -68,6 +68,15 @@ def r1(ctx, R):
                 line_vars.add(unparse(e.left))
             if isinstance(e, ast.Call) and isinstance(e.func, ast.Name) and e.func.id == "any" and e.args and isinstance(e.args[0], (ast.GeneratorExp, ast.ListComp)):
                 ge = e.args[0]
+                ok_, lv_, txt_ = _region_gen(ge, regions)
+                if ok_ is not None and not isinstance(ge.generators[0].target, ast.Name):
+                    seen_region = True
+                    if ok_:
+                        line_vars.add(lv_)
+                        R.ok("C08.R1", p.short, "region test lo <= line <= hi", loc(p, direct), "both ends inclusive (the directive lines themselves are skipped)")
+                    else:
+                        R.violation("C08.R1", p.short, "region test lo <= line <= hi", loc(p, direct), f"the test under which a line is skipped ({txt_}) is not `region[0] <= line <= region[1]`: the first or last line of an inactive region is parsed")
+                    continue
                 if len(ge.generators) == 1 and unparse(ge.generators[0].iter) == regions and isinstance(ge.generators[0].target, ast.Name):
                     tv = ge.generators[0].target.id
                     c = ge.elt
@@ -154,6 +163,18 @@ def r1(ctx, R):
             seen_def = True
             line_vars |= {c.split(" in ")[0] for c in conds if f" in {deflines}" in c}
             R.ok("C08.R1", p.short, "directive lines skipped", loc(p, st))
+    # the flag may also be bound to the reduction itself: flag = any(lo <= line <= hi for lo, hi in regions)
+    for st in ctx.m.walk_own(p.node):
+        if isinstance(st, ast.Assign) and len(st.targets) == 1 and isinstance(st.targets[0], ast.Name) and st.targets[0].id == flag and isinstance(st.value, ast.Call) and isinstance(st.value.func, ast.Name) and st.value.func.id == "any" and st.value.args and isinstance(st.value.args[0], (ast.GeneratorExp, ast.ListComp)):
+            ok_, lv, txt = _region_gen(st.value.args[0], regions)
+            if ok_ is None:
+                continue
+            seen_region = True
+            if ok_:
+                line_vars.add(lv)
+                R.ok("C08.R1", p.short, "region test lo <= line <= hi", loc(p, st), "both ends inclusive (the directive lines themselves are skipped)")
+            else:
+                R.violation("C08.R1", p.short, "region test lo <= line <= hi", loc(p, st), f"the test under which a line is skipped ({txt}) is not `region[0] <= line <= region[1]`: the first or last line of an inactive region is parsed")
     if not seen_region:
         R.violation("C08.R1", p.short, "region test lo <= line <= hi", loc(p, src), f"no test of the current line against the regions in {regions}")
     if not seen_def:
@@ -178,6 +199,40 @@ def r1(ctx, R):
     if n < 4:
         raise AnalysisError(f"FortranFile.parse: only {n} statement-reader calls found")
     _r1_producer(ctx, R, p)
+
+
+def _region_gen(ge, regions):
+    """(ok, line variable, text) for `lo <= line <= hi` over `for r in regions` / `for lo, hi in regions`;
+    ok None: not a generator over the regions"""
+    if len(ge.generators) != 1 or unparse(ge.generators[0].iter) != regions or ge.generators[0].ifs:
+        return None, None, ""
+    tg = ge.generators[0].target
+    if isinstance(tg, ast.Name):
+        lo_t, hi_t = f"{tg.id}[0]", f"{tg.id}[1]"
+    elif isinstance(tg, (ast.Tuple, ast.List)) and len(tg.elts) == 2 and all(isinstance(x, ast.Name) for x in tg.elts):
+        lo_t, hi_t = tg.elts[0].id, tg.elts[1].id
+    else:
+        return None, None, ""
+    c = ge.elt
+    lo_ok = hi_ok = False
+    lv = None
+    cmps = c.values if isinstance(c, ast.BoolOp) and isinstance(c.op, ast.And) else [c]
+    for cc in cmps:
+        if isinstance(cc, ast.Compare) and len(cc.ops) == 2 and all(isinstance(o, ast.LtE) for o in cc.ops) and unparse(cc.left) == lo_t and unparse(cc.comparators[1]) == hi_t:
+            lo_ok = hi_ok = True
+            lv = unparse(cc.comparators[0])
+        elif isinstance(cc, ast.Compare) and len(cc.ops) == 2 and all(isinstance(o, ast.GtE) for o in cc.ops) and unparse(cc.left) == hi_t and unparse(cc.comparators[1]) == lo_t:
+            lo_ok = hi_ok = True
+            lv = unparse(cc.comparators[0])
+        elif isinstance(cc, ast.Compare) and len(cc.ops) == 1:
+            l, r, op = unparse(cc.left), unparse(cc.comparators[0]), cc.ops[0]
+            if (r == lo_t and isinstance(op, ast.GtE)) or (l == lo_t and isinstance(op, ast.LtE)):
+                lo_ok = True
+                lv = l if r == lo_t else r
+            if (r == hi_t and isinstance(op, ast.LtE)) or (l == hi_t and isinstance(op, ast.GtE)):
+                hi_ok = True
+                lv = l if r == hi_t else r
+    return (lo_ok and hi_ok), lv, unparse(c)
 
 
 def _r1_producer(ctx, R, p):
@@ -542,7 +597,9 @@ def r6(ctx, R):
         cds = [v for _, v in defs_of(ctx, f, cache)]
         if not (len(cds) == 1 and isinstance(cds[0], ast.Dict) and not cds[0].keys):
             continue
-        if not any(isinstance(c.func, ast.Attribute) and c.func.attr == "get" and unparse(c.func.value) == cache for c in calls_in(f.node)):
+        read_get = any(isinstance(c.func, ast.Attribute) and c.func.attr == "get" and unparse(c.func.value) == cache for c in calls_in(f.node))
+        read_sub = any(isinstance(x, ast.Subscript) and isinstance(x.ctx, ast.Load) and unparse(x.value) == cache for x in ctx.m.walk_own(f.node))
+        if not (read_get or read_sub):
             continue
         keyexpr = st.targets[0].slice
 
